@@ -404,6 +404,9 @@ inductive Field
   /-- attribute the parser reads but the writer never writes (a defect of the class: the schema is
   not well-formed, `wfF` is false) -/
   | attrReadOnly (name : Str) (ty : FTy)
+  /-- attribute that the parser reads under one name and the writer writes under ANOTHER (a defect of the class:
+  `attribute("queryId")` / `writeAttribute("queryid", …)`; never well-formed, `wfF` is false) -/
+  | attrRW (rname wname : Str) (ty : FTy) (omitD : Bool)
   /-- the element's own text content -/
   | text (ty : FTy)
   /-- optional child whose TAG is the value (`<failed><item-not-found xmlns=…/></failed>`): the first
@@ -464,6 +467,7 @@ mutual
   def encF : Field → Val → List (Str × Str) × List Node
     | .attr name ty omitD, v => (if omitD && ty.isDefault v then [] else [(name, ty.show v)], [])
     | .attrReadOnly _ _, _ => ([], [])
+    | .attrRW _ wname ty omitD, v => (if omitD && ty.isDefault v then [] else [(wname, ty.show v)], [])
     | .text ty, v => ([], textNode (ty.show v))
     | .enumChild ns decl _ names _, v =>
       match v with
@@ -516,6 +520,7 @@ mutual
   def decF (pns : Str) (x : Node) : Field → Val
     | .attr name ty _ => ty.parse (attr x.attrs name)
     | .attrReadOnly name ty => ty.parse (attr x.attrs name)
+    | .attrRW rname _ ty _ => ty.parse (attr x.attrs rname)
     | .text ty => ty.parse (deepText x)
     | .enumChild ns _ anyNs names _ =>
       match x.kids.find? (matchesNs ns anyNs pns) with
@@ -548,6 +553,7 @@ mutual
   def canonF : Field → Val → Bool
     | .attr _ ty _, v => ty.canon v
     | .attrReadOnly _ ty, v => ty.canon v
+    | .attrRW _ _ ty _, v => ty.canon v
     | .text ty, v => ty.canon v
     | .enumChild _ _ _ names _, v =>
       match v with
@@ -587,6 +593,7 @@ end
 def Field.heads : Field → List (Str × Str)
   | .attr .. => []
   | .attrReadOnly .. => []
+  | .attrRW .. => []
   | .text _ => []
   | .enumChild ns _ _ names _ => names.map fun n => (n, ns)
   | .tagChild ns _ _ names _ _ _ _ => names.map fun n => (n, ns)
@@ -597,12 +604,14 @@ def Field.heads : Field → List (Str × Str)
 def Field.emitsKids : Field → Bool
   | .attr .. => false
   | .attrReadOnly .. => false
+  | .attrRW .. => false
   | _ => true
 
 /-- the children of the element that influence what field `f` reads -/
 def Field.sees (pns : Str) : Field → Node → Bool
   | .attr .., _ => false
   | .attrReadOnly .., _ => false
+  | .attrRW .., _ => false
   | .text _, _ => true
   | .enumChild ns _ anyNs _ _, k => matchesNs ns anyNs pns k
   | .tagChild ns _ anyNs names skip knownOnly _ _, k => tagCand ns anyNs names skip knownOnly pns k
@@ -614,11 +623,13 @@ def Field.sees (pns : Str) : Field → Node → Bool
 def Field.reads : Field → Str → Bool
   | .attr n _ _, k => n == k
   | .attrReadOnly n _, k => n == k
+  | .attrRW r _ _ _, k => r == k
   | _, _ => false
 
 /-- the attribute names field `f` writes -/
 def Field.writes : Field → Str → Bool
   | .attr n _ _, k => n == k
+  | .attrRW _ w _ _, k => w == k
   | _, _ => false
 
 /-- `indep f g`: nothing that `g` writes is visible to the way `f` reads -/
@@ -627,10 +638,17 @@ def indep (f g : Field) : Bool :=
   | .attr n _ _ =>
     match g with
     | .attr n' _ _ => n != n'
+    | .attrRW _ w _ _ => n != w
     | _ => true
   | .attrReadOnly n _ =>
     match g with
     | .attr n' _ _ => n != n'
+    | .attrRW _ w _ _ => n != w
+    | _ => true
+  | .attrRW r _ _ _ =>
+    match g with
+    | .attr n' _ _ => r != n'
+    | .attrRW _ w _ _ => r != w
     | _ => true
   | .text _ => !g.emitsKids
   | .enumChild ns _ anyNs _ _ =>
@@ -667,6 +685,7 @@ mutual
   def quietF : Field → Bool
     | .attr _ ty omitD => omitD && ty.isDefault (ty.parse [])
     | .attrReadOnly _ _ => true
+    | .attrRW _ _ ty omitD => omitD && ty.isDefault (ty.parse [])
     | .text ty => (ty.show (ty.parse [])).isEmpty
     | .enumChild .. => true
     | .tagChild .. => true
@@ -686,6 +705,7 @@ mutual
   def wfF (pns : Str) : Field → Bool
     | .attr name ty _ => name != xmlnsKey && ty.wf
     | .attrReadOnly _ _ => false
+    | .attrRW .. => false
     | .text ty => ty.wf
     | .enumChild ns decl _ names _ => (decl || ns == pns) && !names.contains [] && nodupB names
     | .tagChild ns decl _ names skip _ _ _ =>
